@@ -35,9 +35,18 @@ structure S5mAnswer where
   nfsg : Nat
   type2 : Bool
 
-def answerAt (ops : List MOpQ) (eps : Rat) : S5mAnswer :=
+def answerAt (normf : Option Nat → Thunk (Option (List UTrans))) (ops : List MOpQ) (eps : Rat) : S5mAnswer :=
   let f := family ops eps
-  ⟨identifyMag ops eps, (xsg ops).length, f.ops.length, f.isType2⟩
+  ⟨identifyMagN normf ops eps, (xsg ops).length, f.ops.length, f.isType2⟩
+
+/-- The reference Hall number whose normalizer a type-III identification at `eps` will enumerate (`none` otherwise). -/
+def normalizerKey (ops : List MOpQ) (eps : Rat) : Option Nat :=
+  match identifyReference ops eps with
+  | some (ref, 3) =>
+    match S5.identify ref .standard eps with
+    | .ok sg => (uniRange? sg.number).bind fun range => range.head?.bind refHall?
+    | .error _ => none
+  | _ => none
 
 def sameAnswer (a b : S5mAnswer) : Bool :=
   a.nxsg == b.nxsg && a.nfsg == b.nfsg && a.type2 == b.type2 &&
@@ -65,8 +74,17 @@ def cmdS5m (ts : List String) : String :=
     pure (ops.toList, eps)) with
   | none => "bad-case"
   | some (ops, eps) =>
-    let a := answerAt ops eps
-    let fragile := !(sameAnswer a (answerAt ops (DriverS5.band eps 1)) && sameAnswer a (answerAt ops (DriverS5.band eps (-1))))
+    -- The normalizer of the tabulated reference group (type III) is by far the most expensive part.  It depends on the
+    -- threshold only through `solve_mod1` residuals of translations that are exact twelfths (multiples of 1/48 after the
+    -- Smith division): for `eps < 1/100` no such residual is within 1e-9 of the threshold, so the three evaluations of the
+    -- fragility band share ONE computation (`identifyMag_eq_N`: the answer at `eps` is the proven model's).
+    let key := normalizerKey ops eps
+    let shared := sharedNormalizer key eps
+    let normf : Rat → Option Nat → Thunk (Option (List UTrans)) := fun e h0 =>
+      if decide (eps < 1 / 100) && h0 == key then shared else sharedNormalizer h0 e
+    let a := answerAt (if decide (eps < 1 / 100) then normf eps else fun h0 => sharedNormalizer h0 eps) ops eps
+    let fragile := !(sameAnswer a (answerAt (normf (DriverS5.band eps 1)) ops (DriverS5.band eps 1)) &&
+      sameAnswer a (answerAt (normf (DriverS5.band eps (-1))) ops (DriverS5.band eps (-1))))
     let row := match (seg? segs "row").bind (·.head?) |>.bind String.toNat? with
       | none => ""
       | some u =>
